@@ -27,7 +27,7 @@ RULE = ('histories of Index calls (assignment, lookup, get, deletion, pop, popit
 DISTINCT = ('cells', 'schedules')
 REQUIRED = ('calls_judged', 'file_backed_values', 'reopen_events', 'pickle_events', 'fanout_indexes', 'django_indexes',
             'presence_schedules', 'presence_lookups', 'atomicity_schedules', 'free_runs', 'exceptions_matched',
-            'lookups_overlapping_replacement')
+            'lookups_overlapping_replacement', 'replacements_run_in_front_of_a_file_open')
 ASSUMPTIONS = ('bool and NaN keys are not generated (OrderedDict unifies True with 1, the cache by design does not)',)
 
 T = 64
@@ -269,15 +269,19 @@ def presence_schedule(dc, sc, res, rng, label, classify):
     n = nw + nr
     base_ix = dc.Index.fromcache(base)
     objs = [base_ix if shared else dc.Index.fromcache(dc.Cache(d, timeout=0)) for _ in range(n)]
-    sch = Sched(rng, clock, strategy=rng.choice(['random', 'preempt', 'random']),
-                preempt_points={rng.randrange(0, 150) for _ in range(4)})
+    # 'chase': an adversarial schedule - each time a reader is about to open a value file, a writer first completes a
+    # whole replacement of some key, so that one lookup can meet several replacements in a row
+    strategy = rng.choice(['random', 'preempt', 'random', 'chase', 'chase'])
+    sch = Sched(rng, clock, strategy=strategy, preempt_points={rng.randrange(0, 150) for _ in range(4)},
+                victims=range(nw, n))
     rec = Recorder(sch)
+    chase = strategy == 'chase'
 
     def writer(ci):
         def run():
-            for i in range(rng.randrange(1, 4)):
-                k = rng.choice(['k', 'k', 'j'])
-                v = ('w%d-%d;' % (ci, i)) * (30 if rng.random() < 0.6 else 1)
+            for i in range(rng.randrange(3, 7) if chase else rng.randrange(1, 4)):
+                k = rng.choice(['k', 'k', 'k', 'j'] if chase else ['k', 'k', 'j'])
+                v = ('w%d-%d;' % (ci, i)) * (30 if chase or rng.random() < 0.6 else 1)
                 rec.call(ci, 'setitem', (k, v), lambda: objs[ci].__setitem__(k, v))
         return run
 
@@ -307,6 +311,7 @@ def presence_schedule(dc, sc, res, rng, label, classify):
             res.count('schedules_hit_step_cap')
             return
         res.count('presence_schedules')
+        res.count('replacements_run_in_front_of_a_file_open', sch.chases)
         res.count('evaluations')
         if sch.preemptions_in_op:
             res.seen('schedules', sch.trace_hash())
